@@ -150,6 +150,22 @@ def splitObs (patched bare : Bool) (nc : Nat) (w : World) (r : SplitRunSpec) : W
     ("ids", ofList ofNat (cacheIds (r.outer ++ r.branch))),
     ("fs", fsJson nc w'.fs)])
 
+/-- container trees: "C" (Cache) | "L" (other element) | {"seq":[…]} | {"tuple":[…]} | {"runif":[…]} (objects with
+`_seq`) | {"split":[…]} -/
+partial def parseTree (j : Json) : Option CTree :=
+  match str? j with
+  | some "C" => some .cache
+  | some "L" => some .leaf
+  | some _ => none
+  | none =>
+    let kids (k : String) : Option (List CTree) := (arr? (getD j k)).bind (fun a => a.toList.mapM parseTree)
+    match kids "seq", kids "tuple", kids "runif", kids "split" with
+    | some ts, _, _, _ => some (.seq ts)
+    | _, some ts, _, _ => some (.seq ts)
+    | _, _, some ts, _ => some (.seq ts)
+    | _, _, _, some ts => some (.split ts)
+    | _, _, _, _ => none
+
 def stepObs (patched : Bool) (nb V nc : Nat) (w : World) (j : Json) : Option (World × Json) :=
   match str? (getD j "op") with
   | some "splitrun" => do
@@ -163,6 +179,12 @@ def stepObs (patched : Bool) (nb V nc : Nat) (w : World) (j : Json) : Option (Wo
     let rc := (bool? (getD j "rc")).getD false
     let (w', e) := dropOp w c rc
     pure (w', Json.mkObj [("r", Json.str (match e with | none => "ok" | some e => excName e)), ("fs", fsJson nc w'.fs)])
+  | some "bufrule" => do
+    -- `Split(members, bufsize)._bufsize is None` (`Split.__init__`, `_contains_cache`)
+    let members ← (arr? (getD j "members")).bind (fun a => a.toList.mapM parseTree)
+    let bufsize ← optNat (getD j "bufsize")
+    pure (w, Json.mkObj [("none", Json.bool (effBufsizeTree bufsize members).isNone),
+      ("contains", ofList (fun t => Json.bool (containsCache t)) members), ("fs", fsJson nc w.fs)])
   | some "dropdir" =>
     let rc := (bool? (getD j "rc")).getD false
     some (w, Json.mkObj [("r", Json.str (match dropBlocked rc with
